@@ -869,6 +869,8 @@ def rule_pairs(eng, ctx):
                     # obligation, not a read of input; the parameter that follows it is not its size
                     continue
                 pa, sa = args[i], strip_all_casts(args[si])
+                if f.cfg_raw:
+                    sa = strip_all_casts(facts.reduce_min(f, sa, eng.mf(f).at(c)))  # a clamp that cannot bind here is its operand
                 pr = prov(f, pa, outptr=outp)
                 pcan, scan = canon(strip_all_casts(pa)), canon(sa)
                 key = "%s->%s@%s" % (f.name.replace(NS, "").split("<")[0], g.name.replace(NS, "").split("::")[-1], (c.get("loc") or "").split(":", 1)[-1])
@@ -1609,7 +1611,33 @@ def justify_copy(eng, f, c, dst, src, ln, managed=False):
         sized = sized_to(eng, f, c, vecname)
         exp = lcan if not offc else "(%s + %s)" % (offc, lcan)
         alt = None if not offc else "(%s + %s)" % (lcan, offc)
-        if sized is not None and sized in (exp, alt):
+        same_form = False
+        if sized is not None and sized not in (exp, alt):
+            # the same amount spelled through a named local (`const size_t total = old + n; v.resize(total); memcpy(v.data() + old, .., n)`)
+            from rules.decoder_rules import _linear
+            rz = [x for x in f.calls("std::vector::resize") if canon(x.get("obj")) == vecname and canon(strip_all_casts(x["args"][0])) == sized]
+
+            def opaque(z):
+                if z.get("k") in ("call", "member") or (z.get("k") == "ref" and z.get("dk") != "local"):
+                    return "v:" + canon(z)
+                return None
+            if rz:
+                fa = _linear(f, rz[-1]["args"][0], opaque)
+                fl = _linear(f, ln, opaque)
+                fo = _linear(f, dd["r"], opaque) if offc else {1: 0}
+                if fa is not None and fl is not None and fo is not None:
+                    d3 = dict(fa)
+                    for part in (fl, fo):
+                        for k3, v3 in part.items():
+                            d3[k3] = d3.get(k3, 0) - v3
+                    same_form = not any(v3 for v3 in d3.values())
+                    # a size() of the same vector read after the resize is the new size, not an operand of the amount
+                    late = [z for part in ((dd["r"] if offc else None), ln) if isinstance(part, dict) for z in walk(facts.expand(f, part))
+                            if z.get("k") == "call" and (z.get("callee") or {}).get("nm") == "size" and canon(z.get("obj")) == vecname and
+                            not (z.get("id") in f.cfg.pos_of and f.cfg.block_for(z) == f.cfg.block_for(rz[-1]) and f.cfg.pos_of[z["id"]] < f.cfg.pos_of[rz[-1]["id"]])]
+                    if late:
+                        same_form = False
+        if sized is not None and (sized in (exp, alt) or same_form):
             wr_ok = True
             wr = "destination sized to %s by the preceding resize/constructor" % sized
         elif sized is not None and L is not None and offc is None:
@@ -1899,7 +1927,7 @@ def rule_loops(eng):
                     consumed_min = moved if consumed_min is None else min(consumed_min, moved)
             res.check(ok_all, "C02-R5", key, ls.get("loc"), "every path that re-enters the loop moves the cursor by >= %s" % consumed_min, why)
             # result pushes inside cursor loops
-            pushes = [x for x in walk(ls.get("body", {})) if x.get("k") == "call" and callee_name(x) == "std::vector::push_back"]
+            pushes = [x for x in walk(ls.get("body", {})) if x.get("k") == "call" and callee_name(x) in ("std::vector::push_back", "std::vector::emplace_back")]
             if pushes and ok_all and any("size" in d.lower() for d in cvars | {canon(cond)}):
                 res.check(consumed_min is not None and consumed_min >= 12, "C02-R5", key + ":packets-per-bytes", ls.get("loc"),
                           "each iteration that pushes a result and continues consumes >= %s input bytes" % consumed_min,
@@ -2009,8 +2037,12 @@ def rule_ownership(eng):
     for cn in (NS + "Payload", "TECMP::Payload"):
         for f in fb.fns(cn + "::" + cn.split("::")[-1]):
             if len(f.params) == 3:
-                stores = [i for i in f.raw.get("inits", []) if i.get("field") and f.params[1]["decl"] in reads(i.get("e", {}))]
-                copies = [c for c in f.calls() if facts.copy_args(c) and f.params[1]["decl"] in reads(facts.copy_args(c)[1])]
+                ftype = {fld["qname"]: fld["t"] for fld in fb.record(cn)["fields"]}
+                reading = [i for i in f.raw.get("inits", []) if i.get("field") and f.params[1]["decl"] in reads(i.get("e", {}))]
+                # an owning container built from the range [data, data + n) is a copy; a pointer / view member initialised from data is not
+                stores = [i for i in reading if not (ftype.get(i["field"], {}).get("s", "").startswith("std::vector<") and facts.vector_value_sizes(f, i["e"]))]
+                copies = [c for c in f.calls() if facts.copy_args(c) and f.params[1]["decl"] in reads(facts.copy_args(c)[1])] + \
+                    [i for i in reading if i not in stores]
                 res.check(not stores and len(copies) == 1, "C02-R7", "copy-in:" + cn.replace(NS, ""), f.loc, "constructor copies the bytes into its own vector",
                           "%s(type,data,size) keeps the caller's pointer instead of copying" % cn)
 
